@@ -7,6 +7,22 @@ BASE_OFF = ("cd /repo && env -u GIN_CONFIG_VERIF /venv/bin/python -m pytest -ra 
 
 CHECKS = {
 
+  'C14': ('model_checking',
+          'TLA+ spec GinParse.tla (streaming recursive parse vs fold over the flattened text; ordered file resolution) model-checked with TLC; TLC-exported file stores materialised on disk / in a memory reader and parsed by gin',
+          'TLC checks for every store of up to 3 files x skip_unknown form x placement that the recursive streaming parse equals the fold over the flattened statements and that resolution is location-major, reader-minor; stores are materialised with poisoned files at every non-first placement and parsed by gin (applied statements, provenance, returned tree, errors, multi-file entry point).',
+          'Statements rendered one per line; package-relative names through the Python path are not in the model.',
+          'DESIGN.md section 6 C14'),
+  'C15': ('model_checking',
+          'TLA+ spec GinParse.tla (C15_Reduced, C15_KnownApplied, C15_UnlistedStillError) model-checked with TLC; TLC-exported stores parsed by gin under every form of skip_unknown',
+          'TLC checks that parsing with skip_unknown equals parsing the text with exactly the statements targeting unknown (listed) names and imports of missing modules deleted, over all stores within bounds and the forms False / True / list; stores are parsed by gin with list / tuple / set forms rotated.',
+          'Static registration only; the dynamic-registration reading of "known" (F11) is with C19.',
+          'DESIGN.md section 6 C15'),
+  'C16': ('model_checking',
+          'TLA+ spec GinParse.tla (prefix property, error class and location chain, provenance) model-checked with TLC; TLC-exported faulty stores parsed by gin',
+          'TLC checks that a parse failing at any statement, for any modelled syntactic or semantic reason and at any include depth, leaves exactly the flattened prefix applied and reports one (file, line) per include level; faulty stores (12 concrete syntax / tokenizer error texts rotated) are parsed by gin comparing applied statements, provenance, error class, location chain, restored scope / lock / parse contexts and a follow-up parse.',
+          'Line numbers rely on the one-statement-per-line rendering.',
+          'DESIGN.md section 6 C16'),
+
   'C13': ('model_checking',
           'TLA+ spec GinRegister.tla (validation order of _make_configurable, method renaming, interactive mode; Predict table) model-checked with TLC; TLC behaviours replayed through the three real registration APIs; predicted observables enumerated over a shape universe',
           'TLC explores all sequences of up to 4 registration requests with interactive-mode and lock switches and checks atomicity of rejection, the interactive-mode rule and that the mode ends with its block; behaviours are replayed into gin comparing status and registry; the transparency clauses (identity, no injection into the original, metadata, subclassing, exact instance type, pickling) are predicted by the model per (API, kind, scoped) and observed on 14 callable / class shapes.',
